@@ -114,5 +114,5 @@ ENABLED_FAULTS = {
     "C09": ["opt_teleport", "grad_huge", "opt_signflip", "degenerate_knobs"],
     "C11": ["opt_teleport", "grad_huge", "opt_signflip", "degenerate_knobs"],
     "C12": ["opt_teleport", "grad_huge", "opt_signflip", "opt_zero", "grad_nan", "grad_inf", "degenerate_knobs"],
-    "C18": ["data_fault_row"],
+    "C18": ["data_fault_row", "opt_teleport"],
 }
